@@ -99,9 +99,26 @@ def run(ctx):
                 ctx.disagreement(fn, how, dump(got), want)
         c02.monitor(ctx, sess, regs)
         sess.close()
+    unnamed_entry_points(ctx)
     if not ctx.samples:
         ctx.sample('(none)')
     return fw.finish(ctx, 'make -C /verif/coq Props/C13.vo  (coqc, Print Assumptions under each theorem)')
+
+
+def unnamed_entry_points(ctx):
+    """with the extension feature: UnnamedRequirement's evaluate_markers / evaluate_optional_environment (with and without an
+    environment) are the marker's own, on several extras sets (the harness compares them inside the `unnamed` operation)"""
+    hh = build.harness(ext=True)
+    sess = markers.Session(hh)
+    for base in ('https://example.org/p-1.0-py3-none-any.whl', './p', '/abs/p.whl[dev]', 'file:///a/b[a,x]'):
+        for m in ("extra == 'dev'", "extra != 'dev'", "extra == 'x' and os_name == 'posix'", "extra == 'a' or extra == 'b'", "python_version >= '3.8' and extra != 'x'", "os_name == 'nt'"):
+            text = '%s ; %s' % (base, m)
+            r = sess.ask(['unnamed', S('/work'), S(text)])
+            ctx.oracle_cases += 1
+            if r[0] == 'ok' and len(r) > 9 and r[9]:
+                ctx.failure('UnnamedRequirement(%r): the requirement-level evaluators disagree with the marker: %s' % (text, '; '.join(unS(x) for x in r[9])[:300]),
+                            {'entry': 'UnnamedRequirement::evaluate_optional_environment', 'input': text})
+    sess.close()
 
 
 def independent(m):
